@@ -16,9 +16,9 @@ CLAIMED = {
    engine="Union",
    technique="TLA+ spec Union.tla (reference relation UnionRef + try/suppress loop), exhaustive TLC over member tuples/outcomes; real union routines vs independently built member routines, validated by TLC trace spec Union_Trace.tla",
    level="model_checking",
-   text="TLC checks that the implementation-shaped try/suppress loop refines UnionRef for every member tuple of length 2-4, every None placement and every assignment of member outcomes (and finds the counterexamples for the pre-fix rotation/suppress rules). Real union routines over ordered tuples of a 12-type pool are then run on an input pool (incl. memoryviews made anew per call, so that only the members of one union call share an object) in two orders and every call, with the outcomes of independently built member routines, is validated against UnionRef by TLC.",
+   text="TLC checks that the implementation-shaped try/suppress loop refines UnionRef for every member tuple of length 2-4, every None placement and every assignment of member outcomes (and finds the counterexamples for the pre-fix rotation/suppress rules). Real union routines (and the one-shot unmarshal()/marshal() entry points, held to the same reference) over ordered tuples of a 16-type pool (incl. a class and a subclass re-typing an inherited member, and bytes) are then run on an input pool (incl. memoryviews made anew per call, so that only the members of one union call share an object) in two orders and every call, with the outcomes of independently built member routines, is validated against UnionRef by TLC.",
    ref="DESIGN.md section 4 C08",
-   note="Trusted: TLC; member outcomes taken from member routines built in the same process; caches cleared per union annotation (cross-annotation cache effects belong to C12). Quick samples 3/4-tuples; thorough runs all 3-tuples."),
+   note="Inputs include texts and collections of several hundred elements and bytes that are no UTF-8. Trusted: TLC; member outcomes taken from member routines built in the same process; caches cleared per union annotation (cross-annotation cache effects belong to C12). Quick samples 3/4-tuples; thorough runs all 3-tuples."),
  "C18": dict(
    engine="Iter",
    technique="TLA+ spec Iter.tla (ItemsRef/ValuesRef vs peek/strategy implementation layer), exhaustive TLC over [kind, element shapes]; every TLC-emitted input materialised and run on serdes.iteritems/itervalues, validated by TLC trace spec Iter_Trace.tla",
@@ -53,7 +53,7 @@ CLAIMED = {
    level="model_checking",
    text="TLC enumerates the bounded type universe (all leaves, every collection/mapping spelling, fixed tuples, unions, 47 synthesised classes of every flavour (incl. falsy, callable, signature-only, init=False members, members inherited along three-level hierarchies and across modules, keys that are no identifiers) incl. recursive and same-named ones, inheritance, mixed-totality and typing_extensions TypedDicts, wrapper chains, one wrapper object reached on two paths, aliases of None) and emits each type; the universe is run in three process orders (in order; reversed and class-free-first in forked processes that have not called the library), and for each type the real unmarshal is called on a junk pool (incl. sized iterables whose __len__ lies), on every single-step corruption of real wire forms and on the same values with their class positions given as instances holding raw members, and every returned value is checked by the TLA+ structural type checker Conf (runtime class at every position, arity, required keys, Literal/Enum membership), evaluated by TLC on the recorded events.",
    ref="DESIGN.md section 4 C03",
-   note="Trusted: TLC; the projection of values to terms (harness/terms.py); Conf as the meaning of 'conforms'. Universe bounded to depth 2 with representative members (thorough adds 1,500 deeper terms drawn by tlc -simulate from spec/TermsSim.tla); corruptions computed by the harness."),
+   note="Also run: three process orders, a pass in a python -O child interpreter (fixed-tuple and structured types), and annotations spelled anew for every call. Trusted: TLC; the projection of values to terms (harness/terms.py); Conf as the meaning of 'conforms'. Universe bounded to depth 2 with representative members (thorough adds 1,500 deeper terms drawn by tlc -simulate from spec/TermsSim.tla); corruptions computed by the harness."),
  "C13": dict(
    engine="Wire",
    technique="TLA+ specs Terms.tla + Wire.tla (Exact: value made of exactly the annotated classes); TLC-enumerated universe, pool values and junk fed to the real unmarshal, TLC trace spec Wire_Trace.tla checks r = v (pass-through) and u(u(x)) = u(x) (idempotence)",
@@ -74,7 +74,7 @@ CLAIMED = {
    level="model_checking",
    text="For every type of the TLC-enumerated universe, pool values and variants rebuilt from subclass instances (int/str/list subclasses, OrderedDict, pendulum temporals) are marshalled three times (twice in a row and once after all other values of the type); TLC evaluates IsWire on the projected output (exact NoneType/bool/int/float/str/list/dict at every position, primitive keys) and asserts the harness-measured facts: accepted by json.dumps, identical on every call, no mutable container shared with the input, input unchanged; Literal non-members must raise ValueError. Every marshal() call made by the repository's own test suite (recorded passively by a pytest plugin) is judged by the same clauses.",
    ref="DESIGN.md section 4 C06",
-   note="Trusted: TLC; term projection with exact class names; aliasing (id walks) and json.dumps verdict are measured in Python and only asserted by the trace spec."),
+   note="Every value also goes through the one-shot marshal() with a freshly spelled annotation (must agree with the routine) and with its dicts rebuilt as collections.defaultdict (input must stay unchanged); Literal non-members are also tried in a python -O child. Trusted: TLC; term projection with exact class names; aliasing (id walks) and json.dumps verdict are measured in Python and only asserted by the trace spec."),
  "C09": dict(
    engine="Graph",
    technique="TLA+ spec Graph.tla (BFS, visited set, cut rule, predecessor relation vs Acyclic/MembersFirst/CyclicImpliesRevisit/DeferredDenotesExactly), exhaustive TLC over class-graph topologies; TLC-emitted topologies and the value universe materialised, real static_order() sequences validated by TLC trace spec Graph_Trace.tla over opaque type ids with stdlib-derived member facts",
@@ -130,7 +130,7 @@ CLAIMED = {
    level="model_checking",
    text="TLC enumerates every operation history up to the bound over calls with arguments [equality class, detail], deep mutation of an earlier call's result and input, and cache clearing, and checks history-freedom of the reference memo (and that a detail-blind key or a shared result object violates it). Each emitted history is instantiated in 32 concrete families (union member orders at root and nested, equal instants with different offsets, text carriers, bare containers, 1/1.0/True, same-named classes, string references from two modules, recursive types, codec configurations, dateparse targets, routine kinds of one class in every build order, different inputs / value classes for one routine, private init fields, text decoding to nested containers, == durations of different classes, temporal -> text targets, == mapping keys, annotations of one runtime origin, the same input object again after a failed call, a class and its subclass in either order, an instance of the frozen target class passed again), executed in a fresh fork, and every call's outcome is compared by TLC with the outcome of the same call alone in another fresh fork of a zygote that never called the library; inputs must stay unmutated, earlier results unaffected (also by a mutation of the input that produced them), and results of different calls disjoint; every cold call is repeated in freshly started interpreters with other string-hash seeds and must give the same outcome.",
    ref="DESIGN.md section 4 C12",
-   note="Trusted: TLC; os.fork of a zygote as 'cold process'; term projection. Histories of length 4 (quick, 170 sampled per family) / 5 (thorough, all); 4 / 12 zygotes in parallel."),
+   note="The cold calls are repeated in freshly started interpreters with other PYTHONHASHSEED and TZ values. Trusted: TLC; os.fork of a zygote as 'cold process'; term projection. Histories of length 4 (quick, 170 sampled per family) / 5 (thorough, all); 4 / 12 zygotes in parallel."),
  "C04": dict(
    engine="Scalars",
    technique="TLA+ spec Scalars.tla (routing law table, ISO-8601 duration token algebra model-checked by TLC over a boundary grid); real scalar parse/emit events over boundary + seeded Hypothesis values in 8 carriers under two time zones with warmed memos, validated by TLC trace spec Scalars_Trace.tla against standard-library facts",
